@@ -684,3 +684,6 @@ for _p, _t in {
 PROPS["C16"]["triage_budgets"] = (4800, 3600)
 PROPS["C19"]["rule"] += ("; thorough tier also runs 16 reduced shards of the same pairing (about 350 cases, all ten scenarios) under Miri: an Undefined Behavior / leak report is a "
                          "C19.ffi_memory violation keyed by the report's first line and first frame in the repository, any other Miri failure is inconclusive")
+PROPS["C17"]["rule"] += ("; identity clause in twelve calendars (gregory, japanese, buddhist, roc, coptic, ethiopic, ethioaa, hebrew, indian, persian, islamic-civil, iso8601): each own field "
+                         "(day, year, monthCode, month, era + eraYear, monthCode + day) applied through PlainDate::with / PlainDateTime::with must return the receiver")
+PROPS["C17"]["manifest"]["text"] += " The identity clause (a value's own fields applied to itself) is also evaluated for receivers in eleven non-ISO calendars."
